@@ -45,7 +45,7 @@ def describe(tier):
             else "agreement: L(2..4) all labelled ADMGs + O(5, <=5 edges); general: all cyclic directed mixed graphs on 2, 3 "
             "nodes + four-node ones with <=5 edges"
         )
-        + "; every ordered pair (a,b), every conditioning set C",
+        + "; every ordered pair (a,b), every conditioning set C (graphs up to four nodes: given as list, frozenset and one-shot generator)",
         "rule": "state = (graph, a, b, C); transition = one are_sigma_separated call compared with the path-definition "
         "d-separation oracle (acyclic) / with the reversed-argument call and the adjacency rule (all graphs)",
         "assumptions": ["oracle: path definition of d-separation on the latent-expanded DAG (mc.graphs.msep)"],
@@ -75,6 +75,17 @@ def explore_graph(res: Res, kind, g: G, only=None):
             if not isinstance(got, bool):
                 res.violation("exception", case, f"returned {got!r}, not a bool")
             verdict[(a, b, c)] = bool(got)
+            if len(g.nodes) <= 4 and c:
+                # the conditioning set in other legal presentations (any Iterable[Variable]): same verdict
+                for form, conds in (("frozenset", frozenset(V(x) for x in c)), ("generator", (V(x) for x in reversed(c)))):
+                    res.transitions += 1
+                    try:
+                        alt = are_sigma_separated(y, V(a), V(b), conditions=conds)
+                    except Exception as e:  # noqa
+                        res.violation("argument_form", dict(case, form=form), f"raised {type(e).__name__}: {e}")
+                        continue
+                    if bool(alt) != bool(got):
+                        res.violation("argument_form", dict(case, form=form), f"verdict {alt} with the conditions given as a {form}, {got} as a list")
             if frozenset((a, b)) in adj and got:
                 res.violation("adjacent", case, "two nodes joined by an edge are reported sigma-separated")
             if kind == "acyclic":
